@@ -149,6 +149,9 @@ func runCase(t *testing.T, c Case, wd time.Duration, out string) (res Result) {
 	ok := t.Run(fmt.Sprintf("case%d", c.Idx), func(t *testing.T) {
 		w := RunScenario(t, c.Cfg, func(w *World) {
 			rng := rand.New(rand.NewSource(c.Seed))
+			if c.Seed%3 == 0 {
+				w.EnableJitter(c.Seed)
+			}
 			fam(w, &c, rng)
 			// the result is recorded inside the bubble: leaving it with
 			// goroutines still blocked panics the process.
